@@ -120,13 +120,15 @@ def _run_impl(case: dict) -> dict:
         # `except Exception` arms of the library do not swallow; the task it hits dies, the case goes on and is flagged
         import signal
 
+        # (the budget is CPU time of this process, not wall time: a loaded machine must not look like a busy loop)
         def on_alarm(signum, frame):
             hang['hit'] += 1
-            signal.setitimer(signal.ITIMER_REAL, HANG_S)
+            signal.setitimer(signal.ITIMER_PROF, HANG_S)
             raise _Hang()
+        old_prof = None
         try:
-            signal.signal(signal.SIGALRM, on_alarm)
-            signal.setitimer(signal.ITIMER_REAL, HANG_S)
+            old_prof = signal.signal(signal.SIGPROF, on_alarm)
+            signal.setitimer(signal.ITIMER_PROF, HANG_S)
         except ValueError:
             pass
         audit = SiteAudit(loop)
@@ -754,6 +756,12 @@ def _run_impl(case: dict) -> dict:
                     'hang': hang['hit'], 'sites': sorted(audit.sites),
                     'loop_exceptions': [e for e in loop.exceptions if e.get('type') not in (None, 'CancelledError')]}
         finally:
+            try:
+                signal.setitimer(signal.ITIMER_PROF, 0)
+                if old_prof is not None:
+                    signal.signal(signal.SIGPROF, old_prof)
+            except ValueError:
+                pass
             fn.uninstall()
             audit.close()
             try:
@@ -877,10 +885,10 @@ def _monitor(case: dict, impl: dict) -> list[Violation]:
                     if closed_seen > 1:
                         add('C10-closed-twice', f'connection {i}: CLOSED reported more than once', [t for _, t in evs])
                 last = name
-            elif tok == 'msg' and last == 'CLOSED':
+            elif tok == 'msg' and closed_seen:          # (closed_seen is reset when the server connection restarts)
                 add('C10-delivery-after-closed', f'connection {i}: a message was delivered after CLOSED',
                     [t for _, t in evs], 'no MessageReceivedEvent after CLOSED')
-            elif tok == 'wrote' and last == 'CLOSED':
+            elif tok == 'wrote' and closed_seen:
                 add('C10-send-after-closed', f'connection {i}: bytes were sent after CLOSED', [t for _, t in evs],
                     'no send succeeds after CLOSED')
     # registry at every quiescent point
@@ -915,7 +923,7 @@ def _monitor(case: dict, impl: dict) -> list[Violation]:
                     states, 'CLOSED is reported for every connection whose life ended')
     if impl.get('hang'):
         add('C10-hang', 'the library spun without ever suspending (no quiescent moment is reached again); the spinning '
-            f'task had to be killed by the harness after {HANG_S:.0f} s of wall time', impl['lines'][-3:],
+            f'task had to be killed by the harness after {HANG_S:.0f} s of CPU time', impl['lines'][-3:],
             'every op is followed by a quiescent moment')
     for e in impl.get('loop_exceptions', []):
         if e.get('type') == '_Hang':
